@@ -2,6 +2,9 @@ import IOptProofs.WiringInterpDefs
 import IOptProofs.ProcInterp
 import IOptProofs.ReportInterp
 import Lean
+import IOptModel.Solver
+import Mathlib.Algebra.Order.Field.Basic
+import Mathlib.Tactic.NormNum
 /-!
 # The glue of the library (`Solver`, the constructors, `SearchDataItem`), taken from the SOURCE TEXT, is what the model assumes
 -/
@@ -501,6 +504,29 @@ theorem wiredL_process_listeners (P Q : Root) (ls : List Val) (tr : List Call) :
     (wiredL P Q ls tr).heap[1]? = some { cls := "list", elems := ls } := by
   refine ⟨?_, ?_, ?_⟩ <;> kernel_rfl
 
+/-- **`AddListener(l)` on ANY world**: if the solver object at `s` holds the list object `L` at address `a` as its `__listeners`,
+the generated tree of `AddListener` appends `l` to THAT object and changes nothing else - whatever else has happened to the heap
+(iterations done, flags changed, other solvers created).  Every object that holds address `a` (the process, after
+`solver_init_sharing`) sees the new listener. -/
+theorem solver_AddListener_general (c : Ctx) (d : Nat) (w : World) (s a : Nat) (L : Obj) (l : Val)
+    (hs : w.getAttr s "_Solver__listeners" = some (.ref a)) (hL : w.heap[a]? = some L) (hc : L.cls = "list") :
+    callMethod theProg c d "Solver" "AddListener" (.ref s) [l] [] w =
+      some ({ w with heap := w.heap.set a { L with elems := L.elems ++ [l] } }, none) := by
+  rw [theProg_eq]
+  have hlk : progLit.methods.lookup ("Solver", "AddListener") = some
+      { ok := true, params := ["listener"], dflts := [],
+        body := [.mcall [] (.path "self" ["_Solver__listeners"]) "append" [(none, .atom (.path "listener" []))]] } := by kernel_rfl
+  unfold World.getAttr at hs
+  cases hS : w.heap[s]? with
+  | none => rw [hS] at hs; cases hs
+  | some S =>
+    rw [hS] at hs
+    simp only [Option.bind_some] at hs
+    have hsz : ("_Solver__listeners" == "size") = false := by decide +kernel
+    have hsl : ("listener" == "self") = false := by decide +kernel
+    simp [callMethod, hlk, bindParams, bindRest, runBody, execList, execStmt, evalArgs, evalExpr, evalAtom, evalPure, readFields,
+      readField, methodCall, bindTargets, isSeq, hS, hs, hL, hc, hsz, hsl, List.lookup]
+
 /-- **`Solver.Solve()` is ONE call `Solve()` on THE process object, and returns its result** (whatever listeners were added,
 whatever calls were made before): the heap is untouched, the call is sent to address `17` = `S.process`, without arguments, and the
 value returned is the value of that call. -/
@@ -587,15 +613,6 @@ theorem searchDataItem_getters_after_init (c : Ctx) (d : Nat) (y x : Val) :
   rw [theProg_eq]; refine ⟨?_, ?_, ?_, ?_, ?_, ?_, ?_⟩ <;> kernel_rfl
 
 /-! #### the accessors on ANY item object of ANY world -/
-
-/-- attribute `f` (mangled name) of the heap object at `a` -/
-def World.getAttr (w : World) (a : Nat) (f : String) : Option Val := (w.heap[a]?).bind fun o => o.fields.lookup f
-
-/-- the world in which attribute `f` of the object at `a` is `v` -/
-def World.setAttr (w : World) (a : Nat) (f : String) (v : Val) : World :=
-  match w.heap[a]? with
-  | some o => { w with heap := w.heap.set a { o with fields := setField o.fields f v } }
-  | none => w
 
 theorem lookup_setField_self (fs : List (String × Val)) (k : String) (v : Val) : (setField fs k v).lookup k = some v := by
   induction fs with
@@ -746,6 +763,304 @@ theorem searchDataItem_set_other (c : Ctx) (d : Nat) {s g f f' : String} (hs : (
     · subst hb; rw [getAttr_setAttr_ne _ _ _ h]; exact hread
     · rw [getAttr_setAttr_other _ _ _ _ hb]; exact hread
   · rw [getAttr_setAttr_other _ _ _ _ h]; exact hread
+
+/-! ### the defaults of `SolverParameters` meet the standing hypotheses of the headline theorems -/
+
+/-- the default string of parameter `p` of `SolverParameters.__init__` (the defaults belong to the TRAILING parameters) -/
+def solverParametersDefault (p : String) : Option String :=
+  let ps := Gen.Wiring.solverParameters_initParams.drop 1
+  ((ps.drop (ps.length - Gen.Wiring.solverParameters_initDefaults.length)).zip Gen.Wiring.solverParameters_initDefaults).lookup p
+
+/-- a natural-number literal -/
+def parseNat (s : String) : Option Nat := if (chars s).isEmpty then none else digitsToNat (chars s) 0
+
+/-- **the default strings, parsed** (`parseDecimal`: mantissa and number of digits after the point): `eps = 1/10^2`, `r = 20/10^1`,
+`itersLimit = 20000`, `evolventDensity = 10`, `epsR = 1/10^3`, `refineSolution = False` -/
+theorem solverParameters_defaults_parsed :
+    (solverParametersDefault "eps").bind parseDecimal = some (1, 2) ∧
+    (solverParametersDefault "r").bind parseDecimal = some (20, 1) ∧
+    (solverParametersDefault "epsR").bind parseDecimal = some (1, 3) ∧
+    (solverParametersDefault "itersLimit").bind parseNat = some 20000 ∧
+    (solverParametersDefault "evolventDensity").bind parseNat = some 10 ∧
+    (solverParametersDefault "refineSolution").bind evalLit = some (.bool false) := by
+  decide +kernel
+
+/-- the number a decimal literal stands for -/
+def decVal (α : Type) [DivisionRing α] (mk : Int × Nat) : α := (mk.1 : α) / (10 : α) ^ mk.2
+
+/-- the numeric parameters of `SolverParameters` -/
+structure ParamDefaults (α : Type) where
+  eps : α
+  r : α
+  epsR : α
+  itersLimit : Nat
+  evolventDensity : Nat
+  refineSolution : Bool
+
+/-- the defaults of `SolverParameters.__init__`, read from the GENERATED default strings -/
+def parsedDefaults (α : Type) [DivisionRing α] : Option (ParamDefaults α) :=
+  match (solverParametersDefault "eps").bind parseDecimal, (solverParametersDefault "r").bind parseDecimal,
+        (solverParametersDefault "epsR").bind parseDecimal, (solverParametersDefault "itersLimit").bind parseNat,
+        (solverParametersDefault "evolventDensity").bind parseNat, (solverParametersDefault "refineSolution").bind evalLit with
+  | some e, some r, some er, some il, some dn, some (.bool b) =>
+    some { eps := decVal α e, r := decVal α r, epsR := decVal α er, itersLimit := il, evolventDensity := dn, refineSolution := b }
+  | _, _, _, _, _, _ => none
+
+/-- **the defaults are `eps = 1/100, r = 2, itersLimit = 20000, evolventDensity = 10, epsR = 1/1000, refineSolution = false`** -/
+theorem parsedDefaults_eq (α : Type) [Field α] [CharZero α] :
+    parsedDefaults α = some { eps := 1 / 100, r := 2, epsR := 1 / 1000, itersLimit := 20000, evolventDensity := 10,
+                              refineSolution := false } := by
+  obtain ⟨h1, h2, h3, h4, h5, h6⟩ := solverParameters_defaults_parsed
+  simp only [parsedDefaults, h1, h2, h3, h4, h5, h6, decVal]
+  norm_num
+
+/-- **`defaults_meet_hypotheses`: the theorems are not vacuous for the configuration users get by default.**  The parameter record
+`AGP.Params` built from the parsed defaults (any dimension `n ≥ 1`, any evolvent) satisfies the standing hypotheses of the headline
+theorems: `1 < r` and `0 < n` (`IOptProps/C01.lean`, `C06.lean`, …), `0 < eps` (`C01solve.lean`), `1 ≤ itersLimit` (`C03.lean`,
+`C03_stop_exact`), and the evolvent density is `≥ 1` (`C20.lean`). -/
+theorem defaults_meet_hypotheses (α : Type) [Field α] [LinearOrder α] [IsStrictOrderedRing α] :
+    ∃ dp : ParamDefaults α, parsedDefaults α = some dp ∧
+      dp.eps = 1 / 100 ∧ dp.r = 2 ∧ dp.itersLimit = 20000 ∧ dp.evolventDensity = 10 ∧ dp.epsR = 1 / 1000 ∧
+      dp.refineSolution = false ∧
+      ∀ (n : Nat) (image : α → List α), 0 < n →
+        let p : AGP.Params α := { n := n, r := dp.r, eps := dp.eps, itersLimit := dp.itersLimit, image := image }
+        1 < p.r ∧ 0 < p.n ∧ 0 < p.eps ∧ 0 < p.itersLimit ∧ 1 ≤ p.itersLimit ∧ 1 ≤ dp.evolventDensity := by
+  refine ⟨_, parsedDefaults_eq α, rfl, rfl, rfl, rfl, rfl, rfl, ?_⟩
+  intro n image hn
+  refine ⟨?_, hn, ?_, ?_, ?_, ?_⟩ <;> norm_num
+
+/-- … and the `Solver.Config` of the model with the default parameters (what `Solver.mk` turns into the evolvent of density 10) -/
+example : ∀ dp : ParamDefaults ℚ, parsedDefaults ℚ = some dp →
+    let cfg : Solver.Config ℚ := { n := 2, lower := [0, 0], upper := [1, 1], eps := dp.eps, r := dp.r,
+                                   itersLimit := dp.itersLimit, evolventDensity := dp.evolventDensity }
+    cfg.evolventDensity = 10 ∧ (1 : ℚ) < cfg.r ∧ (0 : ℚ) < cfg.eps ∧ 1 ≤ cfg.itersLimit := by
+  intro dp h
+  rw [parsedDefaults_eq] at h
+  cases h
+  norm_num
+
+/-- **the object `SolverParameters()` holds exactly these defaults** (generated tree of `SolverParameters.__init__` run on the default
+values): literals are stored as written; `startPoint` is THE shared default list (never read by the library) -/
+theorem solverParameters_init_defaults (c : Ctx) (d : Nat) :
+    new theProg c (d + 1) "SolverParameters" [] [] {} = some (.ref 0, { heap := [
+      { cls := "SolverParameters",
+        fields := [("eps", .lit "0.01"), ("r", .lit "2.0"), ("itersLimit", .int 20000), ("evolventDensity", .int 10),
+                   ("epsR", .lit "0.001"), ("refineSolution", .bool false),
+                   ("startPoint", .sym (.dflt "SolverParameters" "startPoint") [])] }] }) := by
+  rw [theProg_eq]; kernel_rfl
+
+/-- arguments given by the user override the defaults, by position or by keyword -/
+example : new theProg oneObjective 1 "SolverParameters" [.lit "0.001"] [("itersLimit", .int 500), ("refineSolution", .bool true)] {} =
+    some (.ref 0, { heap := [
+      { cls := "SolverParameters",
+        fields := [("eps", .lit "0.001"), ("r", .lit "2.0"), ("itersLimit", .int 500), ("evolventDensity", .int 10),
+                   ("epsR", .lit "0.001"), ("refineSolution", .bool true),
+                   ("startPoint", .sym (.dflt "SolverParameters" "startPoint") [])] }] }) := by
+  rw [theProg_eq]; decide +kernel
+
+/-! ### `Solution`: a FRESH placeholder list per object -/
+
+/-- `Solution(P)` evaluated twice -/
+def solutionTwice (pg : Prog) (c : Ctx) (d : Nat) (P : Root) : Option (Val × Val × World) :=
+  match new pg c d "Solution" [.sym P []] [] {} with
+  | some (s1, w1) =>
+    match new pg c d "Solution" [.sym P []] [] w1 with
+    | some (s2, w2) => some (s1, s2, w2)
+    | none => none
+  | none => none
+
+/-- **every `Solution` gets its OWN list `[Trial([], [])]`** (the default is `None`, `solution_initDefaults`, and the list is allocated
+in the body): two `Solution(P)` have different `bestTrials` objects (addresses `4` and `9`) holding different `Trial`s (`3`, `8`) -/
+theorem solution_fresh_bestTrials (c : Ctx) (d : Nat) (P : Root) :
+    solutionTwice theProg c (d + 2) P = some (.ref 0, .ref 5, { heap := [
+      { cls := "Solution",
+        fields := [("problem", .sym P []), ("bestTrials", .ref 4), ("numberOfGlobalTrials", .int 0), ("numberOfLocalTrials", .int 0),
+                   ("solvingTime", .lit "0.0"), ("solutionAccuracy", .lit "0.0")] },
+      { cls := "list" }, { cls := "list" },
+      { cls := "Trial", fields := [("point", .ref 1), ("functionValues", .ref 2)] },
+      { cls := "list", elems := [.ref 3] },
+      { cls := "Solution",
+        fields := [("problem", .sym P []), ("bestTrials", .ref 9), ("numberOfGlobalTrials", .int 0), ("numberOfLocalTrials", .int 0),
+                   ("solvingTime", .lit "0.0"), ("solutionAccuracy", .lit "0.0")] },
+      { cls := "list" }, { cls := "list" },
+      { cls := "Trial", fields := [("point", .ref 6), ("functionValues", .ref 7)] },
+      { cls := "list", elems := [.ref 8] }] }) := by
+  rw [theProg_eq]; kernel_rfl
+
+/-- the edit "mutable default argument": `bestTrials=[Trial([], [])]` in the signature, no `if bestTrials is None` in the body -/
+def solutionMutableDefault : ClassDef :=
+  ⟨Gen.Wiring.solution_initParams, ["[Trial([], [])]", "0", "0", "0.0", "0.0"], Gen.Wiring.solution_init.drop 1⟩
+
+/-- **the semantics distinguishes the two**: with the mutable default both `Solution` objects hold THE SAME list (the one made when the
+`def` was executed): writing `bestTrials[0]` of one solver would change the other -/
+theorem solution_mutableDefault_shared (c : Ctx) (d : Nat) (P : Root) :
+    solutionTwice (theProg.withClass "Solution" solutionMutableDefault) c (d + 2) P = some (.ref 0, .ref 1, { heap := [
+      { cls := "Solution",
+        fields := [("problem", .sym P []), ("bestTrials", .sym (.dflt "Solution" "bestTrials") []), ("numberOfGlobalTrials", .int 0),
+                   ("numberOfLocalTrials", .int 0), ("solvingTime", .lit "0.0"), ("solutionAccuracy", .lit "0.0")] },
+      { cls := "Solution",
+        fields := [("problem", .sym P []), ("bestTrials", .sym (.dflt "Solution" "bestTrials") []), ("numberOfGlobalTrials", .int 0),
+                   ("numberOfLocalTrials", .int 0), ("solvingTime", .lit "0.0"), ("solutionAccuracy", .lit "0.0")] }] }) := by
+  rw [theProg_eq]; kernel_rfl
+
+/-! ### `OptimizationTask.Calculate` -/
+
+/-- the world after `OptimizationTask(P)` and `SearchDataItem(y, x)`: `0` the task, `1` its permutation `[0]`, `2` the item, `3` its value
+holder, `4` the list `functionValues` -/
+def taskItemHeap (P : Root) (y x : Val) : List Obj := [
+  { cls := "OptimizationTask", fields := [("problem", .sym P []), ("perm", .ref 1)] },
+  { cls := "ndarray", elems := [.int 0] },
+  { cls := "SearchDataItem",
+    fields := [("point", y), ("functionValues", .ref 4), ("_SearchDataItem__x", x), ("_SearchDataItem__discreteValueIndex", .int 0),
+               ("_SearchDataItem__index", .int (-2)), ("_SearchDataItem__z", .lit "sys.float_info.max"),
+               ("_SearchDataItem__leftPoint", .none), ("_SearchDataItem__rightPoint", .none), ("delta", .lit "-1.0"),
+               ("globalR", .lit "-1.0"), ("localR", .lit "-1.0"), ("iterationNumber", .int (-1))] },
+  { cls := "FunctionValue", fields := [("type", .lit "FunctionType.OBJECTIV"), ("functionID", .lit "''"), ("value", .lit "0.0")] },
+  { cls := "list", elems := [.ref 3] }]
+
+theorem taskItemHeap_built (d : Nat) (P : Root) (y x : Val) :
+    (match new theProg oneObjective (d + 2) "OptimizationTask" [.sym P []] [] {} with
+     | some (_, w1) => new theProg oneObjective (d + 2) "SearchDataItem" [y, x] [] w1
+     | none => none) = some (.ref 2, { heap := taskItemHeap P y x }) := by
+  rw [theProg_eq]; kernel_rfl
+
+/-- **`OptimizationTask.Calculate(dataItem, 0)`, source tree**: with the identity permutation that `OptimizationTask.__init__` builds,
+it is ONE call `Calculate(dataItem.point, dataItem.functionValues[0])` on the CALLER's problem `P` - "evaluate the objective at the
+item's point, handing it the item's value holder" - whose result is stored back in slot `0` of `dataItem.functionValues`; the item
+itself is returned.  (The primitive `CalculateFunctionals` / `recordTrial` of `MethodInterp`.) -/
+theorem optimizationTask_Calculate (c : Ctx) (d : Nat) (P : Root) (y x : Val) (tr : List Call) :
+    callMethod theProg c d "OptimizationTask" "Calculate" (.ref 0) [.ref 2, .int 0] [] { heap := taskItemHeap P y x, trace := tr } =
+      some ({ heap := (taskItemHeap P y x).set 4 { cls := "list", elems := [.res tr.length] },
+              trace := tr ++ [{ recv := .sym P [], meth := "Calculate", args := [y, .ref 3] }] },
+            some (.ref 2)) := by
+  rw [theProg_eq]; kernel_rfl
+
+/-- an index outside the permutation is not silently accepted -/
+example : callMethod theProg oneObjective 0 "OptimizationTask" "Calculate" (.ref 0) [.ref 2, .int 1] []
+    { heap := taskItemHeap (.user 0) (.lit "y") (.lit "0.5") } = none := by
+  rw [theProg_eq]; decide +kernel
+
+/-! ### sensitivity: seeded edits of the glue are stuck, or give another object graph -/
+
+/-- `Solver(P, Q)` with `Solver.__init__` replaced by an edited body -/
+def newSolverWith (body : List Stmt) (P Q : Root) : Option (Val × World) :=
+  new (theProg.withClass "Solver" ⟨Gen.Wiring.solver_initParams, Gen.Wiring.solver_initDefaults, body⟩) oneObjective 4 "Solver"
+    [.sym P [], .sym Q []] [] {}
+
+/-- the unedited body through the same route: the expected wiring (so the examples below differ by the edit only) -/
+example : newSolverWith Gen.Wiring.solver_init (.user 0) (.user 1) = some (.ref 0, wired (.user 0) (.user 1)) := by
+  unfold newSolverWith; rw [theProg_eq]; decide +kernel
+
+/-- **"the method gets a COPY of the parameters object"**: `Method(copy.copy(parameters), …)`, `copy.deepcopy(parameters)` are stuck
+(a copy inserted into the wiring cannot be silently accepted) -/
+theorem copy_of_parameters_stuck :
+    newSolverWith (Gen.Wiring.solver_init.set 6
+      (.call ["self.method"] "Method" ["copy.copy(parameters)", "self.task", "self.evolvent", "self.searchData"]))
+      (.user 0) (.user 1) = none ∧
+    newSolverWith (Gen.Wiring.solver_init.set 6
+      (.call ["self.method"] "Method" ["copy.deepcopy(parameters)", "self.task", "self.evolvent", "self.searchData"]))
+      (.user 0) (.user 1) = none ∧
+    newSolverWith (Gen.Wiring.solver_init.set 1 (.call ["self.parameters"] "copy.copy" ["parameters"])) (.user 0) (.user 1) = none := by
+  unfold newSolverWith; rw [theProg_eq]; decide +kernel
+
+/-- **"Process copies the listener list"**: `listeners=list(self.__listeners)`, `listeners=self.__listeners[:]`,
+`listeners=self.__listeners.copy()` in `Solver.__init__` are stuck; so is `self.__listeners = list(listeners)` in `Process.__init__` -/
+theorem copy_of_listeners_stuck :
+    newSolverWith (Gen.Wiring.solver_init.set 7
+      (.call ["self.process"] "Process" ["parameters=parameters", "task=self.task", "evolvent=self.evolvent",
+        "searchData=self.searchData", "method=self.method", "listeners=list(self.__listeners)"])) (.user 0) (.user 1) = none ∧
+    newSolverWith (Gen.Wiring.solver_init.set 7
+      (.call ["self.process"] "Process" ["parameters=parameters", "task=self.task", "evolvent=self.evolvent",
+        "searchData=self.searchData", "method=self.method", "listeners=self.__listeners[:]"])) (.user 0) (.user 1) = none ∧
+    newSolverWith (Gen.Wiring.solver_init.set 7
+      (.call ["self.process"] "Process" ["parameters=parameters", "task=self.task", "evolvent=self.evolvent",
+        "searchData=self.searchData", "method=self.method", "listeners=self.__listeners.copy()"])) (.user 0) (.user 1) = none ∧
+    new (theProg.withClass "Process" ⟨Gen.Wiring.process_initParams, Gen.Wiring.process_initDefaults,
+        Gen.Wiring.process_init.set 5 (.assign "self.__listeners" "list(listeners)")⟩) oneObjective 4 "Solver"
+      [.sym (.user 0) [], .sym (.user 1) []] [] {} = none := by
+  unfold newSolverWith; rw [theProg_eq]; decide +kernel
+
+/-- … and a copy that CAN be written in the fragment - a fresh list for the process - is not stuck but gives another graph: the
+process reads a list (address `17`) that `AddListener` never touches -/
+theorem fresh_list_for_process_differs :
+    newSolverWith (Gen.Wiring.solver_init.take 7 ++ [
+      .assign "copied" "[]",
+      .call ["self.process"] "Process" ["parameters=parameters", "task=self.task", "evolvent=self.evolvent",
+        "searchData=self.searchData", "method=self.method", "listeners=copied"]]) (.user 0) (.user 1) ≠
+      some (.ref 0, wired (.user 0) (.user 1)) ∧
+    ((newSolverWith (Gen.Wiring.solver_init.take 7 ++ [
+      .assign "copied" "[]",
+      .call ["self.process"] "Process" ["parameters=parameters", "task=self.task", "evolvent=self.evolvent",
+        "searchData=self.searchData", "method=self.method", "listeners=copied"]]) (.user 0) (.user 1)).bind fun r =>
+        r.2.at (.ref 0) ["process", "_Process__listeners"]) = some (.ref 17) := by
+  unfold newSolverWith; rw [theProg_eq]; decide +kernel
+
+/-- **a second `SearchData`**: `self.searchData = SearchData(problem)` written twice (the method would still get the second one, but
+two are allocated), or a second `SearchData(problem)` handed to `Method` (method and process then search in DIFFERENT containers):
+not stuck, and NOT the expected wiring -/
+theorem second_searchData_differs :
+    newSolverWith (Gen.Wiring.solver_init.take 4 ++ [.call ["self.searchData"] "SearchData" ["problem"]] ++
+      Gen.Wiring.solver_init.drop 4) (.user 0) (.user 1) ≠ some (.ref 0, wired (.user 0) (.user 1)) ∧
+    ((newSolverWith (Gen.Wiring.solver_init.take 4 ++ [.call ["self.searchData"] "SearchData" ["problem"]] ++
+      Gen.Wiring.solver_init.drop 4) (.user 0) (.user 1)).map fun r => r.2.count "SearchData") = some 2 ∧
+    newSolverWith (Gen.Wiring.solver_init.take 6 ++ [
+      .call ["other"] "SearchData" ["problem"],
+      .call ["self.method"] "Method" ["parameters", "self.task", "self.evolvent", "other"]] ++
+      Gen.Wiring.solver_init.drop 7) (.user 0) (.user 1) ≠ some (.ref 0, wired (.user 0) (.user 1)) ∧
+    ((newSolverWith (Gen.Wiring.solver_init.take 6 ++ [
+      .call ["other"] "SearchData" ["problem"],
+      .call ["self.method"] "Method" ["parameters", "self.task", "self.evolvent", "other"]] ++
+      Gen.Wiring.solver_init.drop 7) (.user 0) (.user 1)).map fun r =>
+        (r.2.at (.ref 0) ["method", "searchData"], r.2.at (.ref 0) ["process", "searchData"])) =
+      some (some (.ref 14), some (.ref 2)) := by
+  unfold newSolverWith; rw [theProg_eq]; decide +kernel
+
+/-- the evolvent built WITHOUT the configured density (defect F4: `Evolvent(lower, upper, n)`): not the expected wiring -/
+theorem evolvent_without_density_differs :
+    newSolverWith (Gen.Wiring.solver_init.set 4
+      (.call ["self.evolvent"] "Evolvent" ["problem.lowerBoundOfFloatVariables", "problem.upperBoundOfFloatVariables",
+        "problem.numberOfFloatVariables"])) (.user 0) (.user 1) ≠ some (.ref 0, wired (.user 0) (.user 1)) := by
+  unfold newSolverWith; rw [theProg_eq]; decide +kernel
+
+/-- **"Solve builds a fresh Process"**: `Solver.Solve` = `self.process = Process(…); return self.process.Solve()` -/
+def solveFreshProcess : List Stmt := [
+  .call ["self.process"] "Process" ["parameters=self.parameters", "task=self.task", "evolvent=self.evolvent",
+    "searchData=self.searchData", "method=self.method", "listeners=self.__listeners"],
+  .ret "self.process.Solve()"]
+
+/-- … is NOT the delegation: it is not a facade body (`parseFacade`), and in the object graph the call goes to a NEW process object
+(address `18`, with `__first_iteration = True` again), not to THE process (address `17`) -/
+theorem solve_fresh_process_not_delegation :
+    Facade.parseFacade solveFreshProcess = none ∧
+    (callMethod (theProg.withMethod "Solver" "Solve" ⟨Gen.Wiring.solver_SolveParams, Gen.Wiring.solver_SolveDefaults, solveFreshProcess⟩)
+      oneObjective 1 "Solver" "Solve" (.ref 0) [] [] (wired (.user 0) (.user 1))).map (fun r => (r.1.trace, r.1.heap.length)) =
+      some ([{ recv := .ref 18, meth := "Solve" }], 19) := by
+  rw [theProg_eq]; decide +kernel
+
+/-- a facade method that calls ANOTHER method of the process, or does something before delegating, is not a facade body -/
+example : Facade.parseFacade [.ret "self.process.GetResults()"] = some ("GetResults", [], true) ∧
+    Facade.parseFacade [.call [] "self.method.FirstIteration" [], .ret "self.process.Solve()"] = none ∧
+    Facade.parseFacade [.ret "self.method.Solve()"] = none ∧
+    Facade.parseFacade [.call ["x"] "self.process.DoGlobalIteration" ["number"]] = none := by
+  decide +kernel
+
+/-- **`SetLeft` assigning `__rightPoint`**: the law `GetLeft(SetLeft(v)) = v` fails (and `GetRight` changes) -/
+theorem setLeft_wrong_field_breaks_law :
+    let pg := theProg.withMethod "SearchDataItem" "SetLeft"
+      ⟨Gen.Wiring.searchDataItem_SetLeftParams, Gen.Wiring.searchDataItem_SetLeftDefaults, [.assign "self.__rightPoint" "point"]⟩
+    let W : World := { heap := expectedItem (.lit "y") (.lit "0.5") }
+    ((callMethod pg oneObjective 0 "SearchDataItem" "SetLeft" (.ref 0) [.ref 7] [] W).bind fun r =>
+      (callMethod pg oneObjective 0 "SearchDataItem" "GetLeft" (.ref 0) [] [] r.1).map (·.2)) = some (some .none) ∧
+    ((callMethod pg oneObjective 0 "SearchDataItem" "SetLeft" (.ref 0) [.ref 7] [] W).bind fun r =>
+      (callMethod pg oneObjective 0 "SearchDataItem" "GetRight" (.ref 0) [] [] r.1).map (·.2)) = some (some (.ref 7)) := by
+  rw [theProg_eq]; decide +kernel
+
+/-- statements outside the fragment are not silently accepted -/
+example : newSolverWith [.other "self.parameters.r = 3"] (.user 0) (.user 1) = none ∧
+    newSolverWith [.assign "parameters.r" "3"] (.user 0) (.user 1) = none ∧             -- a store into the caller's object
+    newSolverWith [.assign "self.perm[i]" "0"] (.user 0) (.user 1) = none ∧
+    newSolverWith [.forEach "l" "self.__listeners" []] (.user 0) (.user 1) = none := by
+  unfold newSolverWith; rw [theProg_eq]; decide +kernel
 
 end WiringInterp
 
